@@ -162,7 +162,8 @@ class Check:
     # -------------------------------------------------------------- obligations
     def add(self, ob: Ob):
         self.obs.append(ob)
-        self.functions.add(ob.func)
+        if "[" not in ob.func:
+            self.functions.add(ob.func)
         return ob
 
     def discharge_all(self):
